@@ -199,3 +199,9 @@ Theorem C04_attribute_chain_prefixes_v : forall sk c x k e,
   e_canonical_v sk c e = dotted_from (canonical_v sk c (aroot x)) (firstn k (asegs x)).
 Proof. exact attribute_chain_prefixes_v. Qed.
 Print Assumptions C04_attribute_chain_prefixes_v.
+
+(* Decorator.callable_path: the head chain's resolved root followed by its segments, whatever the calls *)
+Theorem C04_callable_path_head : forall sk c d,
+  callable_path_v sk c d = dotted_from (canonical_v sk c (aroot (deco_head d))) (asegs (deco_head d)).
+Proof. exact callable_path_head. Qed.
+Print Assumptions C04_callable_path_head.
